@@ -59,6 +59,8 @@ def classify(which, r):
     o = r["out"]
     if st == "timeout":
         return "timeout", None, ""
+    if st == "skipped":
+        return "skipped", None, ""
     san = "runtime error:" in err or "AddressSanitizer" in err
     if st != "ok" or san or o is None:
         return "violation", key_of(st, err), err[-1500:]
@@ -113,6 +115,8 @@ def worker(job):
             out["diags"][d] = out["diags"].get(d, 0) + 1
         elif oc == "timeout":
             out["timeouts"].append(data)
+        elif oc == "skipped":
+            out["skipped"] = out.get("skipped", 0) + 1
         else:
             if "runtime error:" in r["err"] or "AddressSanitizer" in r["err"]:
                 out["san_blocks"] += 1
